@@ -23,7 +23,7 @@ func init() {
 }
 
 func isPrintLike(fn *ssa.Function) bool {
-	n := fn.Name()
+	n := NameOf(fn)
 	root := fn
 	for root.Parent() != nil {
 		root = root.Parent()
@@ -61,7 +61,7 @@ func checkC22(c *Ctx) {
 	ni := checkInputIndexing(c, "C22.input", func(fn *ssa.Function) bool {
 		return !strings.Contains(fileOf(c, fn), "memview/commands.go") // parseAddr is decided by C30
 	})
-	c.RequireCount("C22.input constant indexing of user input", ni, 2)
+	c.RequireCount("C22.input constant indexing of user input", ni, 1)
 	nl := checkLineIndices(c, "C22.index", func(fn *ssa.Function) bool { return !isPrintLike(fn) })
 	c.RequireCount("C22.index line-index uses", nl, 8)
 	nn := checkMaybeNilFields(c, "C22.nil", func(fn *ssa.Function) bool { return true })
@@ -74,7 +74,7 @@ func checkC22(c *Ctx) {
 			if !ok {
 				continue
 			}
-			if f := Callee(cs.Common()); f != nil && f.Name() == "parseCommand" {
+			if f := Callee(cs.Common()); f != nil && NameOf(f) == "parseCommand" {
 				parseCall = call
 			}
 			if n, _, isF := FieldNameOfLoad(cs.Common().Value); isF && n == "Action" {
@@ -169,7 +169,7 @@ func checkC23(c *Ctx) {
 				continue
 			}
 			f := FieldOf(fa)
-			if f == nil || FieldByName(linesT, f.Name()) == nil {
+			if f == nil || FieldByName(linesT, NameOf(f)) == nil {
 				continue
 			}
 			if DependsOn(st.Val, func(v ssa.Value) bool {
@@ -177,7 +177,7 @@ func checkC23(c *Ctx) {
 				if !ok || call.Call.StaticCallee() == nil {
 					return false
 				}
-				n := call.Call.StaticCallee().Name()
+				n := NameOf(call.Call.StaticCallee())
 				return n == "Blocks" || n == "blockToLines"
 			}) {
 				derived[f.Origin()] = true
@@ -186,7 +186,7 @@ func checkC23(c *Ctx) {
 	}
 	var dn []string
 	for f := range derived {
-		dn = append(dn, f.Name())
+		dn = append(dn, NameOf(f))
 	}
 	c.Extra["derived_fields"] = dn
 	c.RequireCount("C23.derived fields derived from the block order", len(derived), 2)
@@ -207,7 +207,7 @@ func checkC23(c *Ctx) {
 					// element-wise rewrite is enough only for fields whose length/positions do not change
 					if !whole {
 						if ia, ok := x.Addr.(*ssa.IndexAddr); ok {
-							if n, _, isF := FieldNameOfLoad(ia.X); isF && n == f.Name() {
+							if n, _, isF := FieldNameOfLoad(ia.X); isF && n == NameOf(f) {
 								return true
 							}
 						}
@@ -216,7 +216,7 @@ func checkC23(c *Ctx) {
 					if bi, ok := x.Call.Value.(*ssa.Builtin); ok && bi.Name() == "copy" && !whole {
 						if DependsOn(x.Call.Args[0], func(v ssa.Value) bool {
 							n, _, isF := FieldNameOfLoad(v)
-							return isF && n == f.Name()
+							return isF && n == NameOf(f)
 						}) {
 							return true
 						}
@@ -288,7 +288,7 @@ func checkC23(c *Ctx) {
 			for _, g := range fns {
 				if PkgPathOf(g) == ModulePath+"/"+pkgLines {
 					for f := range derived {
-						if f.Name() == "lines" && writes(g, f, false, 0) {
+						if NameOf(f) == "lines" && writes(g, f, false, 0) {
 							return true
 						}
 					}
@@ -314,7 +314,7 @@ func checkC23(c *Ctx) {
 		}
 		okS := renders(region(succ))
 		for f := range derived {
-			if f.Name() == "lines" && directStore(succ, f) {
+			if NameOf(f) == "lines" && directStore(succ, f) {
 				okS = true
 			}
 		}
@@ -329,7 +329,7 @@ func checkC23(c *Ctx) {
 		}
 		if kind.label == "block-move" {
 			for f := range derived {
-				whole := f.Name() != "lines" // positions change: the field as a whole must be recomputed
+				whole := NameOf(f) != "lines" // positions change: the field as a whole must be recomputed
 				// must-pass: no path from the success edge to a return avoids
 				// every block that re-derives the field
 				rederives := func(b *ssa.BasicBlock) bool {
@@ -363,7 +363,7 @@ func checkC23(c *Ctx) {
 					}
 				}
 				walk(succ)
-				c.Oblige("C23.derived", key+"/"+f.Name(), c.Prog.Pos(call.Pos()), re, "Lines."+f.Name()+" is computed from the block order and sizes but is not recomputed after blocks were permuted: with blocks of different sizes the re-rendered blocks overwrite their neighbours' lines")
+				c.Oblige("C23.derived", key+"/"+NameOf(f), c.Prog.Pos(call.Pos()), re, "Lines."+NameOf(f)+" is computed from the block order and sizes but is not recomputed after blocks were permuted: with blocks of different sizes the re-rendered blocks overwrite their neighbours' lines")
 			}
 		}
 	}
@@ -378,10 +378,10 @@ func checkC23(c *Ctx) {
 		hdr, ins := false, false
 		for _, cs := range Calls(btl) {
 			if f := Callee(cs.Common()); f != nil {
-				if f.Name() == "newBlockLine" && cs.Common().Args[0] == ssa.Value(btl.Params[0]) {
+				if NameOf(f) == "newBlockLine" && cs.Common().Args[0] == ssa.Value(btl.Params[0]) {
 					hdr = true
 				}
-				if f.Name() == "newInstrLine" {
+				if NameOf(f) == "newInstrLine" {
 					ins = true
 				}
 			}
@@ -398,7 +398,7 @@ func checkC23(c *Ctx) {
 	if rl := anchor(c, "(*"+pkgLines+".Lines).Reload"); rl != nil {
 		ok := false
 		for _, cs := range Calls(rl) {
-			if f := Callee(cs.Common()); f != nil && f.Name() == "blockToLines" {
+			if f := Callee(cs.Common()); f != nil && NameOf(f) == "blockToLines" {
 				ok = matches(cs.Common().Args[0], Method("Index", Any(), ParamN(1)))
 			}
 		}
@@ -695,7 +695,7 @@ func checkC30(c *Ctx) {
 				reached, arg := false, ""
 				sw := &StrWalk{Bind: func(v ssa.Value) (string, bool) {
 					if ex, ok := v.(*ssa.Extract); ok && ex.Index == 0 {
-						if call, ok := ex.Tuple.(*ssa.Call); ok && call.Call.StaticCallee() != nil && call.Call.StaticCallee().Name() == "ReadLine" {
+						if call, ok := ex.Tuple.(*ssa.Call); ok && call.Call.StaticCallee() != nil && NameOf(call.Call.StaticCallee()) == "ReadLine" {
 							return line, true
 						}
 					}
@@ -751,7 +751,7 @@ func checkC30(c *Ctx) {
 						return false
 					}
 					g, ok := u.X.(*ssa.Global)
-					return ok && g.Name() == "Zero"
+					return ok && NameOf(g) == "Zero"
 				}, CallTo("pkg/expr.NewConst", Any(), ParamN(0)), ParamN(0))))) {
 					negOK = true
 				}
@@ -770,7 +770,7 @@ func checkC30(c *Ctx) {
 			// bytes reverted to little endian before NewConst
 			revOK := false
 			for _, cs := range Calls(rv) {
-				if f := Callee(cs.Common()); f != nil && f.Name() == "revertBytes" {
+				if f := Callee(cs.Common()); f != nil && NameOf(f) == "revertBytes" {
 					if matches(cs.Common().Args[0], Method("Bytes", Any())) {
 						revOK = true
 					}
@@ -913,7 +913,7 @@ func checkC31(c *Ctx) {
 				for _, in := range b.Instrs {
 					if s, ok := in.(*ssa.Store); ok {
 						if fa, ok := s.Addr.(*ssa.FieldAddr); ok && FieldOf(fa) != nil && FieldOf(fa).Name() == "value" && TypeNameIs(fa.X.Type(), "*"+pkgCur+".Cursor") {
-							if fn != st && fn.Name() != "New" {
+							if fn != st && NameOf(fn) != "New" {
 								bad = ShortName(fn)
 							}
 						}
@@ -961,7 +961,7 @@ func cyclicSearch(act *ssa.Function) string {
 			return false
 		}
 		f := call.Call.StaticCallee()
-		return f != nil && f.Name() == "Value" && strings.Contains(f.String(), "cursor.Cursor")
+		return f != nil && NameOf(f) == "Value" && strings.Contains(f.String(), "cursor.Cursor")
 	}
 	isLinesLen := func(v ssa.Value) bool {
 		call, ok := v.(*ssa.Call)
@@ -969,7 +969,7 @@ func cyclicSearch(act *ssa.Function) string {
 			return false
 		}
 		f := call.Call.StaticCallee()
-		return f != nil && f.Name() == "Len" && strings.Contains(f.String(), "lines.Lines")
+		return f != nil && NameOf(f) == "Len" && strings.Contains(f.String(), "lines.Lines")
 	}
 	nV, nL := 0, 0
 	for _, st := range DeepCalls(act, enter) {
@@ -992,7 +992,7 @@ func cyclicSearch(act *ssa.Function) string {
 			return nil
 		}
 		f := call.Call.StaticCallee()
-		if f == nil || f.Name() != name || !strings.Contains(f.String(), recv) {
+		if f == nil || NameOf(f) != name || !strings.Contains(f.String(), recv) {
 			return nil
 		}
 		return call
@@ -1104,7 +1104,7 @@ func block2LinesWalk(bl *ssa.Function) string {
 			return false
 		}
 		f := call.Call.StaticCallee()
-		return f != nil && Origin(f).Name() == name
+		return f != nil && NameOf(Origin(f)) == name
 	}
 	type row struct{ addr, b, e int64 }
 	for B := int64(0); B < 50; B++ {
@@ -1137,7 +1137,7 @@ func block2LinesWalk(bl *ssa.Function) string {
 				switch x := in.(type) {
 				case *ssa.Call:
 					f := x.Call.StaticCallee()
-					if f != nil && Origin(f).Name() == "New" && PkgPathOf(f) == IntervalPkg {
+					if f != nil && NameOf(Origin(f)) == "New" && PkgPathOf(f) == IntervalPkg {
 						b, ok1 := vl.EvalInt(x.Call.Args[0], nil)
 						e, ok2 := vl.EvalInt(x.Call.Args[1], nil)
 						if !ok1 || !ok2 {
@@ -1211,7 +1211,7 @@ func windowWalk(c *Ctx, rule string, pf *ssa.Function) int {
 								}
 								return 1, true
 							}
-							if f := x.Call.StaticCallee(); f != nil && f.Name() == "Value" && strings.Contains(f.String(), "cursor.Cursor") {
+							if f := x.Call.StaticCallee(); f != nil && NameOf(f) == "Value" && strings.Contains(f.String(), "cursor.Cursor") {
 								return cur, true
 							}
 						}
@@ -1314,7 +1314,7 @@ func checkC32(c *Ctx) {
 		act := cl.Action
 		contains, errRet := false, false
 		for _, st := range DeepCalls(act, InModulePkg(act)) {
-			if f := Callee(st.Call().Common()); f != nil && Origin(f).Name() == "Containts" {
+			if f := Callee(st.Call().Common()); f != nil && NameOf(Origin(f)) == "Containts" {
 				contains = true
 			}
 		}
